@@ -77,8 +77,7 @@ def table_canary(name, edit, expect):
         except LookupError as e:
             ctx.notes.append("canary %s skipped: %s" % (name, e))
             return [Obl("canary:%s/not-applicable" % name, "table", "canary", str(e), status=REFUTED, backend="n/a")]
-        obls = lexer_obls(T, _MiniCtx(), tag="~" + name)
-        return [o for o in obls if __import__("re").search(expect, o.id)]
+        return lexer_obls(T, _MiniCtx(), tag="~" + name)
     return Canary(name, build, expect + "|not-applicable")
 
 
